@@ -1053,7 +1053,7 @@ VEC_BIN = {"VECTOR_ADD": "ADD", "VECTOR_SUB": "SUB", "VECTOR_MUL": "MUL", "VECTO
 
 @family("VM.step.vector", props=["C04", "C05", "C15"], functions=[EXEC, VMP + ".__MatrixMatrixMultiply"],
         assumptions=["sizes enumerated: vectors of 2, 3, 4 components, 3x3 and 4x4 matrices (the complete spellable set); components symbolic",
-                     "float components are reals (A2); for integer vectors VECTOR_DIV / VECTOR_DIV_SCALAR are left unconstrained (only required not to fail)"])
+                     "float components are reals (A2); integer vectors divide like integer scalars (truncation toward zero, C01)"])
 def step_vector(R):
     """Component-wise vector arms (+, -, *, /, six comparisons giving 0/1 per component), vector x scalar and vector / scalar, the matrix
     product (sum over k of a[i][k]*b[k][j]), SHUFFLE, CONSTRUCT_PRIMITIVE, VECTOR_GET/SET and MATRIX_GET/SET (SET yields a NEW value, the old
@@ -1062,8 +1062,6 @@ def step_vector(R):
     for opc, sop in VEC_BIN.items():
         for n in (2, 3, 4):
             for kind in ("f", "i"):
-                if opc == "VECTOR_DIV" and kind == "i":
-                    continue
                 rt = vec("i" if "CMP" in opc else kind, n)
 
                 def run(ctx, opc=opc, sop=sop, n=n, kind=kind, rt=rt):
@@ -1087,8 +1085,6 @@ def step_vector(R):
     for opc, sop in (("VECTOR_MUL_SCALAR", "MUL"), ("VECTOR_DIV_SCALAR", "DIV")):
         for n in (2, 3, 4):
             for kind in ("f", "i"):
-                if sop == "DIV" and kind == "i":
-                    continue
 
                 def run(ctx, opc=opc, sop=sop, n=n, kind=kind):
                     h = Harness({"p": T("i")})
